@@ -69,7 +69,7 @@ assert rc == 0, out
 try:
   for c in checks:
     t0 = time.time()
-    rcc, outc = sh('./check %s --tier %s' % (c, a.tier), '/verif', 7200)
+    rcc, outc = sh('./check %s --tier %s' % (c, a.tier), os.environ.get('VERIF_ROOT', '/verif'), 7200)
     clauses = sorted(set(re.findall(r'clause=(\w+)', outc)))
     nviol = re.findall(r'violations=(\d+)', outc)
     meta['ran'].append({'cmd': './check %s --tier %s' % (c, a.tier), 'exit': rcc, 'violations': int(nviol[-1]) if nviol else None,
